@@ -2589,12 +2589,14 @@ Definition ex_irregular : phys wblob :=
    ([47; 112; 112; 116; 47; 109; 101; 100; 105; 97; 47; 105; 109; 97; 103; 101; 49; 46; 112; 110; 103]%N, mkW 7 0 None None);
    ([47; 100; 111; 99; 80; 114; 111; 112; 115; 47; 116; 104; 117; 109; 98; 110; 97; 105; 108; 46; 106; 112; 101; 103]%N, mkW 8 0 None None)].
 Definition n_ppt_slides_NULL : str := [47; 112; 112; 116; 47; 115; 108; 105; 100; 101; 115; 47; 78; 85; 76; 76]%N.
-
 Lemma ex_irregular_names : forall n, In n (part_names wenv ex_irregular) -> part_name n.
 Proof.
   assert (H : forallb part_nameb (part_names wenv ex_irregular) = true) by (vm_compute; reflexivity).
-  rewrite forallb_forall in H. intros n Hn. apply part_nameb_sound; auto.
+  intros n Hn. apply part_nameb_sound. exact (proj1 (forallb_forall _ _) H n Hn).
 Qed.
 
+Lemma ex_irregular_reg_wfb : wfb wenv (regularise wenv ex_irregular) = true.
+Proof. vm_compute. reflexivity. Qed.
+
 Lemma ex_irregular_reg_wf : wf wenv (regularise wenv ex_irregular).
-Proof. apply wfb_sound. vm_compute. reflexivity. Qed.
+Proof. exact (wfb_sound wenv _ ex_irregular_reg_wfb). Qed.
